@@ -129,6 +129,7 @@ pub fn run(p: &Params, ctx: &mut Ctx) -> Check {
     frag,
     removed_ok_checked: 0,
     volatile: !tl,
+    src_mode: (depth as usize + frag / 16) % 3,
   };
   for i in 0..s.readers.len() {
     if ctx.ch.chance(3, 4) {
@@ -223,6 +224,8 @@ struct St {
   frag: usize,
   removed_ok_checked: u64,
   volatile: bool,
+  /// how the application stamps its samples (derived from the configuration, no extra decision)
+  src_mode: usize,
 }
 
 impl St {
@@ -301,7 +304,12 @@ impl St {
     };
     let sn_next = lw.next_sn();
     let pl = payload_for(0, sn_next, len);
-    let src = 0x7200_0000_0000_0000u64 + sn_next as u64;
+    // the application's source timestamps are its own business: increasing, all the same, or going backwards
+    let src = match self.src_mode {
+      0 => 0x7200_0000_0000_0000u64 + sn_next as u64,
+      1 => 0x7200_0000_0000_0000u64,
+      _ => 0x7200_0000_0001_0000u64 - sn_next as u64,
+    };
     let to = single.map(|i| self.readers[i].guid);
     match lw.write(
       WritePayload::Data {
